@@ -2,6 +2,7 @@
 # usage: tools/confirm_seed2.sh <worktree> <outdir> [demo command, run inside the worktree; default: cargo test --offline --test seed_demo]
 # Confirms a seeded change in its scratch worktree: (1) the worktree's src diff is the patch, (2) the existing suite
 # passes with it, (3) the demo fails with it, (4) the demo passes without it.
+# (no `git stash`: refs/stash is shared by all worktrees of a repository, concurrent users would pop each other's changes)
 W=$1; O=$2; shift 2; T=$W/target
 cd $W || exit 2
 git diff -- src > $O/cur.diff
@@ -10,4 +11,6 @@ export CARGO_TARGET_DIR=$T CARGO_NET_OFFLINE=true
 demo=${*:-cargo test --offline --test seed_demo}
 echo "== suite with change"; timeout 1800 cargo test --workspace --no-fail-fast --offline > $O/confirm_suite.log 2>&1; grep -E "^test .* FAILED|^test result: FAILED" $O/confirm_suite.log | head; grep -c "^test result: ok" $O/confirm_suite.log
 echo "== demo with change (must FAIL)"; timeout 900 bash -c "$demo" > $O/confirm_demo_with.log 2>&1; echo "exit=$?"; grep -E "^test |test result|VIOLATION|FAIL|OK" $O/confirm_demo_with.log | head -12
-git stash -q -- src; echo "== demo without change (must PASS)"; timeout 900 bash -c "$demo" > $O/confirm_demo_without.log 2>&1; echo "exit=$?"; grep -E "^test |test result|VIOLATION|FAIL|OK" $O/confirm_demo_without.log | head -12; git stash pop -q
+git apply -R $O/patch.diff || exit 2
+echo "== demo without change (must PASS)"; timeout 900 bash -c "$demo" > $O/confirm_demo_without.log 2>&1; echo "exit=$?"; grep -E "^test |test result|VIOLATION|FAIL|OK" $O/confirm_demo_without.log | head -12
+git apply $O/patch.diff
